@@ -17,9 +17,11 @@ INLINE = ['em', 'span', 'q', 'b', 'a', 'select']     # select is in the document
 # names for the parent of an implicit element: the documented table, inline names (in the passed list), block names,
 # and a name that HTML calls inline but that is NOT in the passed inlineElements list (-> div)
 PARENTS = ['ul', 'ol', 'table', 'tbody', 'thead', 'tfoot', 'tr', 'select', 'optgroup', 'p', 'em', 'span', 'q', 'b',
-           'div', 'section', 'strong']
+           'div', 'section', 'strong',
+           # HTML names are case-insensitive: the table and the inline rule apply to the name whatever its letter case
+           'UL', 'Table', 'Tr', 'SELECT', 'OptGroup', 'P', 'Em', 'Section']
 # pass with the library's default inlineElements (which lists select, like every Emmet document does): the table still wins
-PARENTS_DEFAULT_INLINE = ['em', 'span', 'strong', 'ul', 'ol', 'div', 'p', 'select', 'optgroup', 'table', 'tr']
+PARENTS_DEFAULT_INLINE = ['em', 'span', 'strong', 'ul', 'ol', 'div', 'p', 'select', 'optgroup', 'table', 'tr', 'Ol', 'STRONG', 'TBody']
 
 BOUNDS = {
     # full: (n, groups, reps) with every kind assignment (3^n) under all 6 configurations
@@ -75,13 +77,15 @@ def kind_assignments(n, mode):
         yield base
     elif mode == 'full' and n <= 2:
         # small skeletons: also elements that carry text (an implicit element with text still nests its children)
-        alts = ('x%d', 'x%d/', '.c%d', 'x%d$', "x%d{it's}", '.c%d{t}')
+        # ... and text that holds a tabstop field (the formatter writes such an element through its snippet path)
+        alts = ('x%d', 'x%d/', '.c%d', 'x%d$', "x%d{it's}", '.c%d{t}', 'x%d{a${1}b}', 'x%d{${1:p} q}')
         for combo in itertools.product(range(len(alts)), repeat=n):
             yield [alts[c] % i for i, c in enumerate(combo)]
     elif mode == 'dev1':
         yield base
         for i in range(n):
-            for alt in ('x%d/' % i, '.c%d' % i, 'x%d$' % i, "x%d{it's}" % i, '.c%d{t "}' % i, '#i%d[a=b]{t}' % i):
+            for alt in ('x%d/' % i, '.c%d' % i, 'x%d$' % i, "x%d{it's}" % i, '.c%d{t "}' % i, '#i%d[a=b]{t}' % i,
+                        'x%d{a${1}b}' % i, '.c%d{${0} q}' % i):
                 l = list(base)
                 l[i] = alt
                 yield l
@@ -206,7 +210,7 @@ def run_implicit(seq, n, ctx):
                     try:
                         got, out = observe(abbr, 'html', False, inline)
                     except Exception as e:
-                        ctx.violation('exception:%s' % type(e).__name__, case_of(seq, l, 'html', False, inline), str(e)[:200])
+                        ctx.violation('exception:%s' % type(e).__name__, dict(case_of(seq, l, 'html', False, inline), implicit=True), str(e)[:200])
                         continue
                     ctx.nontrivial += 1
                     ctx.outcome(tuple(e[1] for e in got if e[0] == 'o'))
@@ -214,7 +218,7 @@ def run_implicit(seq, n, ctx):
                         cls = classify(exp, got)
                         if cls == 'tree:element-name':
                             cls = 'implicit-name'
-                        ctx.violation(cls, case_of(seq, l, 'html', False, inline),
+                        ctx.violation(cls, dict(case_of(seq, l, 'html', False, inline), implicit=True),
                                       dict(expected=exp[:40], actual=got[:40], output=out[:300]))
     ctx.sample(dict(mode='implicit', abbr=M.render(seq, labels)))
 
@@ -302,7 +306,7 @@ def check_case(case):
     abbr, tree, bad = check_one(seq, case['labels'], case['style'], case['format'], case.get('inline'))
     if bad and bad[0] == 'tree:element-name' and case.get('inline') is not None:
         bad = ('implicit-name', bad[1])
-    if bad and bad[0] == 'tree:element-name' and any(l in PARENTS for l in case['labels']):
+    if bad and bad[0] == 'tree:element-name' and (case.get('implicit') or any(l in PARENTS for l in case['labels'])):
         bad = ('implicit-name', bad[1])
     return [bad] if bad else []
 
